@@ -372,7 +372,7 @@ fn check(c: &Case, obs: &mut Obs) -> Verdict {
 
 fn src_string() -> BoxedStrategy<String> {
     prop_oneof![
-        6 => proptest::sample::select(vec!["a.js", "b.js", "src/a.js", "/abs/x.js", "http://h/x.js", "https://h/y.js", "", "ü.js", "http:rel", "./c.js"]).prop_map(|s| s.to_string()),
+        6 => proptest::sample::select(vec!["a.js", "b.js", "src/a.js", "/abs/x.js", "http://h/x.js", "https://h/y.js", "", "ü.js", "http:rel", "./c.js", "http-client.js", "https.js", "httpd/x.c", "//net/x.js"]).prop_map(|s| s.to_string()),
         1 => pool_string(SRC_POOL),
     ]
     .boxed()
@@ -394,8 +394,9 @@ fn bop() -> BoxedStrategy<BOp> {
     prop_oneof![
         4 => src_string().prop_map(BOp::AddSource),
         3 => name_string().prop_map(BOp::AddName),
-        5 => (0u32..50, small_or_edge(), small_or_edge(), proptest::option::weighted(0.8, src_string()), proptest::option::of(name_string()), any::<bool>())
-            .prop_map(|(dc, sl, sc, src, name, range)| BOp::Add { dc, sl, sc, name: if src.is_some() { name } else { None }, src, range }),
+        // (a name without a source is accepted by `add` and interned like any other: one call in eight keeps it)
+        5 => (0u32..50, small_or_edge(), small_or_edge(), proptest::option::weighted(0.8, src_string()), proptest::option::of(name_string()), any::<bool>(), 0u8..8)
+            .prop_map(|(dc, sl, sc, src, name, range, keep)| BOp::Add { dc, sl, sc, name: if src.is_some() || keep == 0 { name } else { None }, src, range }),
         3 => (0u32..50, small_or_edge(), small_or_edge(), proptest::option::weighted(0.8, any::<u16>()), proptest::option::of(any::<u16>()), any::<bool>())
             .prop_map(|(dc, sl, sc, src, name, range)| BOp::AddRaw { dc, sl, sc, src, name, range }),
         3 => (any::<u16>(), content_opt()).prop_map(|(i, t)| BOp::SetSourceContents(i, t)),
